@@ -503,7 +503,7 @@ func doReplay() int {
 		return 2
 	}
 	known := mon.LoadKnown(*fKnown)
-	if f.Kind != "chain-trace" || f.Trace == nil {
+	if f.Kind != "chain-trace" || f.Trace == nil || special.HasReplay(*fProp) {
 		return special.Replay(*fProp, bz, known, *fReplayD)
 	}
 	rep := &eng.Reporter{ReplayDir: *fReplayD}
